@@ -107,6 +107,11 @@ type WithNilEmbedded struct{ *Embedded }
 type WithNilStringer struct{ *ValStringer }
 type WithNilStringerIface struct{ fmt.Stringer }
 
+// Voider has a method without results.
+type Voider struct{}
+
+func (Voider) Touch() {}
+
 // PanicIter is an application Iterator that fails inside Next.
 type PanicIter struct{ n int }
 
